@@ -9,9 +9,8 @@ From NB Require Import Diff.Wf.
 From NB Require Import Sys.RenderTypes.
 From NB Require Import Gen.RenderFilter.
 From NB Require Import Sys.RenderFilter.
-From NB Require Import Sys.RenderFilterProofs..
-From NB Require Import Import.
-From NB Require Import ListNotations.
+From NB Require Import Sys.RenderFilterProofs.
+Import ListNotations.
 
 Theorem render_empty_silent : forall fuel c O a, render_notebook_diff fuel c O a [] = Ok [].
 Proof. exact render_empty_silent_l. Qed.
@@ -83,6 +82,6 @@ Print Assumptions show_nocolor_refuted.
    AFTER THE FIX IS COMMITTED replace the theorem of this block by:
      [Theorem] tool_assert_safe : tool_safe_stmt.  Proof. exact (tool_safe_if eq_refl). Qed.  *)
 Theorem tool_assert_refuted : tool_refuted_stmt.
-Proof. exact tool_refuted_witness. Qed.
+Proof. exact (tool_refuted_if eq_refl). Qed.
 Print Assumptions tool_assert_refuted.
 (* ===== END block F14 ===== *)
